@@ -1,16 +1,26 @@
 #!/bin/bash
-# usage: tools/mut.sh <patch.diff> <ID> [tier]   apply a seeded change to /repo, run the repo tests and a check, revert.
+# usage: tools/mut.sh <patch.diff> "<ID> [<ID>...]" [tier]
+# Applies a seeded change to a scratch worktree of /repo HEAD (so that /repo itself and any background run stay
+# clean), runs the repository tests and the named checks against it (VERIF_REPO), and removes the worktree.
+# MUT_INPLACE=1 applies the patch to /repo itself instead (git apply / git checkout -- .), as the brief describes.
 set -u
 patch="$1"; id="$2"; tier="${3:-quick}"
-cd /repo || exit 2
-if ! git diff --quiet; then echo "repo dirty"; exit 2; fi
-git apply "$patch" || { echo "patch does not apply"; exit 2; }
 export GOFLAGS=-mod=mod GOPROXY=off GOSUMDB=off GOTOOLCHAIN=local
+if [ -n "${MUT_INPLACE:-}" ]; then
+  cd /repo || exit 2
+  git diff --quiet || { echo "repo dirty"; exit 2; }
+  git apply "$patch" || { echo "patch does not apply"; exit 2; }
+  R=/repo
+else
+  R=/tmp/mutwt.$$; rm -rf $R
+  git -C /repo worktree add -q --detach $R HEAD || exit 2
+  ( cd $R && git apply "$patch" ) || { echo "patch does not apply"; git -C /repo worktree remove --force $R; exit 2; }
+fi
 if [ -z "${SKIP_TESTS:-}" ]; then
-  if go test -vet=off -count=1 ./... >/tmp/mut_test.log 2>&1; then echo "repo tests: PASS"; else echo "repo tests: FAIL"; tail -5 /tmp/mut_test.log; fi
+  if ( cd $R && go test -vet=off -count=1 ./... ) >/tmp/mut_test.$$.log 2>&1; then echo "repo tests: PASS"; else echo "repo tests: FAIL"; tail -5 /tmp/mut_test.$$.log; fi
+  rm -f /tmp/mut_test.$$.log
 fi
 for i in $id; do
-  (cd /verif && VERIF_DIR=/verif ./run.sh "$i" "$tier" 2>&1 | grep -E "^(VIOLATION|KNOWN|CHECK-BROKEN|C[0-9]+ )|class=" | head -${MUT_LINES:-8}; echo "$i exit=${PIPESTATUS[0]}")
+  (cd /verif && VERIF_REPO=$R ./run.sh "$i" "$tier" 2>&1 | grep -a -E "^(VIOLATION|KNOWN|CHECK-BROKEN|C[0-9]+ )|class=" | head -${MUT_LINES:-8}; echo "$i exit=${PIPESTATUS[0]}")
 done
-git -C /repo checkout -- . 
-git -C /repo status --short | head
+if [ -n "${MUT_INPLACE:-}" ]; then git -C /repo checkout -- . ; git -C /repo status --short | head; else git -C /repo worktree remove --force $R; fi
